@@ -442,9 +442,9 @@ class HeavyHitters:
             collections.Counter().most_common().
         """
         if threshold is None:
-            threshold = np.uint32(self.phi * self.n_added())
+            threshold = np.uint64(self.phi * self.n_added())
         else:
-            threshold = np.uint32(threshold)
+            threshold = np.uint64(threshold)
 
         if (self.n_added_sort < self.n_added()) or (self.threshold_sort != threshold):
             self.generate_candidate_set(threshold)
@@ -743,9 +743,9 @@ class HeavyHitters:
         None
         """
         if threshold is None:
-            threshold = np.uint32(self.phi * self.n_added())
+            threshold = np.uint64(self.phi * self.n_added())
         else:
-            threshold = np.uint32(threshold)
+            threshold = np.uint64(threshold)
 
         self.n_added_sort = self.n_added()
         self.threshold_sort = threshold
